@@ -4,38 +4,60 @@
    Every method is transcribed statement by statement; every index expression, wrap condition,
    increment and the grow condition is a definition of Gen/QueueIdx.v, regenerated from the Go
    source on every run.  Slice indexing, slice stores, `%` and slice.Rotate are checked
-   operations: out of range / zero divisor / bad offset give an explicit Panic result.
+   operations: out of range / zero divisor / bad offset give an explicit QPanic result.
 
    append's choice of the new capacity is an ORACLE INPUT [c] of Add/Push: validated against the
    runtime's specification (cap(w) > old len, i.e. room for the appended element) -- a value
    that violates it gives the distinct result BadOracle -- and then used, never predicted.
 
-   There is no fuel anywhere: the only loops (Each, Slice) run `for range q.n` and are
-   structural recursions on Z.to_nat n; slice.Rotate is modelled at list level by
-   [rotate_list] (the C17 slice proves the Go cycle-chasing loop equal to it). *)
+   The queue's own loops (Each, Slice) run `for range q.n` and are structural recursions on
+   Z.to_nat n.  The regrowth step calls slice.Rotate: the model calls the faithful loop model of
+   the C17 slice, [SliceUtilModel.rotate_impl] (sliceCheck, gcd, cycle chasing with stores into the
+   buffer), not a list-level description of its effect.  That model's inner `for {}` carries fuel;
+   its OutOfFuel result is passed on as the distinct result [RotateFuel] (proved never to occur).
+
+   MACHINE INTEGERS.  Every model function takes a width function [w : Z -> Z] that is applied to
+   the result of every int addition/subtraction/negation the Go code performs ([idw] = unbounded
+   integers, [wrap64] = Go's 64-bit two's-complement int).  +, - and unary - commute with wrap64,
+   so one application around a generated +/- expression is the same as one per operator; the three
+   `(x + y) % len` expressions are wrapped inside too (% does not commute with wrap64): the
+   generated [*_rem] definitions take the already computed sum, and QueueProofs.gen_sum_ties
+   checks by reflexivity that the sum written here is the one in the Go source. *)
 From Coq Require Import ZArith List Bool.
 Import ListNotations.
 From Mds Require Import Gen.QueueIdx.
+From Mds Require Slice.SliceUtilModel.
 Local Open Scope Z_scope.
 
 Inductive panic_kind := PIndex | PDivZero | PRotate | PMakeLen.
 
 Inductive res (A : Type) :=
-| Ok (a : A)
-| Panic (k : panic_kind)
-| BadOracle.
-Arguments Ok {A} a.
-Arguments Panic {A} k.
+| QOk (a : A)
+| QPanic (k : panic_kind)
+| BadOracle
+| RotateFuel.
+Arguments QOk {A} a.
+Arguments QPanic {A} k.
 Arguments BadOracle {A}.
+Arguments RotateFuel {A}.
 
 Definition bind {A B} (r : res A) (f : A -> res B) : res B :=
-  match r with Ok a => f a | Panic k => Panic k | BadOracle => BadOracle end.
+  match r with QOk a => f a | QPanic k => QPanic k | BadOracle => BadOracle | RotateFuel => RotateFuel end.
 Notation "'do' x <- r ; f" := (bind r (fun x => f)) (at level 200, x pattern, r at level 100, f at level 200).
 
 Definition of_opt {A} (o : option A) (k : panic_kind) : res A :=
-  match o with Some a => Ok a | None => Panic k end.
+  match o with Some a => QOk a | None => QPanic k end.
+
+(* the two integer widths *)
+Definition idw (z : Z) : Z := z.
+(* Go's int: the representative of z modulo 2^64 in [-2^63, 2^63).  Values already in range are
+   returned as they are (same value -- QueueProofsInt.wrap64_is_mod -- without a 64-bit division). *)
+Definition wrap64 (z : Z) : Z :=
+  if (- 9223372036854775808 <=? z) && (z <? 9223372036854775808) then z
+  else (z + 9223372036854775808) mod 18446744073709551616 - 9223372036854775808.
 
 Section Queue.
+Variable w : Z -> Z.        (* applied to the result of every int +, -, unary - *)
 Variable T : Type.
 Variable zero : T.          (* Go's zero value of T *)
 
@@ -58,14 +80,19 @@ Definition make (k : Z) : option (list T) :=
 
 (* a % b with Go's run-time check *)
 Definition checked_rem (b : Z) (r : Z) : res Z :=
-  if b =? 0 then Panic PDivZero else Ok r.
+  if b =? 0 then QPanic PDivZero else QOk r.
 
-(* slice.Rotate(ss, k) at list level: sliceCheck (negative k counts from the end, then
-   0 <= k <= len or panic), afterwards the element at i sits at (i + k) mod len. *)
-Definition rotate_list (l : list T) (k : Z) : option (list T) :=
-  let k' := if k <? 0 then k + zlen l else k in
-  if (k' <? 0) || (k' >? zlen l) then None
-  else Some (skipn (Z.to_nat (zlen l - k')) l ++ firstn (Z.to_nat (zlen l - k')) l).
+(* slice.Rotate(ss, k): the loop model of slice/slice.go (C17 slice), its results mapped into
+   this model's: panic("offset out of range") -> PRotate, index/division run-time panics kept,
+   fuel exhaustion of the inner loop -> RotateFuel. *)
+Definition rotate_go (l : list T) (k : Z) : res (list T) :=
+  match SliceUtilModel.rotate_impl l k with
+  | SliceUtilModel.Ok r => QOk r
+  | SliceUtilModel.Panic SliceUtilModel.PDocOffset => QPanic PRotate
+  | SliceUtilModel.Panic SliceUtilModel.PRtDiv => QPanic PDivZero
+  | SliceUtilModel.Panic _ => QPanic PIndex
+  | SliceUtilModel.OutOfFuel => RotateFuel
+  end.
 
 (* w := append(s, v) where the runtime reports cap(w) = c.  Result: the backing array of w up
    to its capacity (w itself is its first len(s)+1 elements; the rest is zeroed memory).
@@ -87,47 +114,47 @@ Definition new : queue := zero_queue.
 (* NewSize(k): &Queue[T]{vs: make([]T, k)} *)
 Definition new_size (k : Z) : res queue :=
   do b <- of_opt (make (newsize_len k)) PMakeLen;
-  Ok {| vs := b; head := 0; n := 0 |}.
+  QOk {| vs := b; head := 0; n := 0 |}.
 
 (* the shared "rotate to the initial regime" block of Add and Push *)
 Definition rotate_home (cond : Z -> bool) (kf : Z -> Z) (newhead : Z) (q : queue) : res (list T * Z) :=
   if cond (head q) then
-    do r <- of_opt (rotate_list (vs q) (kf (head q))) PRotate;
-    Ok (r, newhead)
-  else Ok (vs q, head q).
+    do r <- rotate_go (vs q) (w (kf (head q)));
+    QOk (r, newhead)
+  else QOk (vs q, head q).
 
 Definition add (q : queue) (v : T) (c : Z) : res queue :=
   let len := zlen (vs q) in
   if add_has_room (n q) len then
-    let pos := add_pos (head q) (n q) in
-    let pos := if add_wrap_cond pos len then add_wrap_pos pos len else pos in
+    let pos := w (add_pos (head q) (n q)) in
+    let pos := if add_wrap_cond pos len then w (add_wrap_pos pos len) else pos in
     do vs' <- of_opt (upd (vs q) (add_store_idx pos) v) PIndex;
-    Ok {| vs := vs'; head := head q; n := add_n (n q) |}
+    QOk {| vs := vs'; head := head q; n := w (add_n (n q)) |}
   else
     do (vs1, head1) <- rotate_home add_rot_cond add_rot_k add_rot_head q;
     match append_cap vs1 v c with
     | None => BadOracle
-    | Some w =>
-      do vs2 <- of_opt (reslice w c (add_grow_hi c)) PIndex;
-      Ok {| vs := vs2; head := head1; n := add_grow_n (n q) |}
+    | Some wbuf =>
+      do vs2 <- of_opt (reslice wbuf c (add_grow_hi c)) PIndex;
+      QOk {| vs := vs2; head := head1; n := w (add_grow_n (n q)) |}
     end.
 
 Definition push (q : queue) (v : T) (c : Z) : res queue :=
   let len := zlen (vs q) in
   if push_has_room (n q) len then
-    let pos := push_pos (head q) in
-    let pos := if push_wrap_cond pos then push_wrap_pos len (n q) else pos in
+    let pos := w (push_pos (head q)) in
+    let pos := if push_wrap_cond pos then w (push_wrap_pos len (n q)) else pos in
     do vs' <- of_opt (upd (vs q) (push_store_idx pos) v) PIndex;
-    Ok {| vs := vs'; head := push_head pos; n := push_n (n q) |}
+    QOk {| vs := vs'; head := push_head pos; n := w (push_n (n q)) |}
   else
     do (vs1, head1) <- rotate_home push_rot_cond push_rot_k push_rot_head q;
     match append_cap vs1 v c with
     | None => BadOracle
-    | Some w =>
-      do vs2 <- of_opt (reslice w c (push_grow_hi c)) PIndex;
-      let head2 := push_grow_head (zlen vs2) in
+    | Some wbuf =>
+      do vs2 <- of_opt (reslice wbuf c (push_grow_hi c)) PIndex;
+      let head2 := w (push_grow_head (zlen vs2)) in
       do vs3 <- of_opt (upd vs2 (push_grow_store_idx head2) v) PIndex;
-      Ok {| vs := vs3; head := head2; n := push_grow_n (n q) |}
+      QOk {| vs := vs3; head := head2; n := w (push_grow_n (n q)) |}
     end.
 
 Definition is_empty (q : queue) : bool := isempty_ret (n q).
@@ -135,36 +162,36 @@ Definition len (q : queue) : Z := len_ret (n q).
 Definition clear (q : queue) : queue := {| vs := []; head := clear_head; n := clear_n |}.
 
 Definition front (q : queue) : res T :=
-  if front_empty (n q) then Ok zero
+  if front_empty (n q) then QOk zero
   else of_opt (idx (vs q) (front_idx (head q))) PIndex.
 
 Definition peek (q : queue) (k : Z) : res (T * bool) :=
-  let k := if peek_neg k then peek_adj k (n q) else k in
-  if peek_out k (n q) then Ok (zero, false)
+  let k := if peek_neg k then w (peek_adj k (n q)) else k in
+  if peek_out k (n q) then QOk (zero, false)
   else
-    do p <- checked_rem (zlen (vs q)) (peek_idx (head q) k (zlen (vs q)));
+    do p <- checked_rem (zlen (vs q)) (w (peek_idx_rem (w (head q + k)) (zlen (vs q))));
     do x <- of_opt (idx (vs q) (peek_load_idx p)) PIndex;
-    Ok (x, true).
+    QOk (x, true).
 
 Definition pop (q : queue) : res (queue * (T * bool)) :=
-  if pop_empty (n q) then Ok (q, (zero, false))
+  if pop_empty (n q) then QOk (q, (zero, false))
   else
     do out <- of_opt (idx (vs q) (pop_idx (head q))) PIndex;
-    let n' := pop_n (n q) in
-    do head' <- (if pop_now_empty n' then Ok pop_head_reset
-                 else checked_rem (zlen (vs q)) (pop_head_next (head q) (zlen (vs q))));
-    Ok ({| vs := vs q; head := head'; n := n' |}, (out, true)).
+    let n' := w (pop_n (n q)) in
+    do head' <- (if pop_now_empty n' then QOk pop_head_reset
+                 else checked_rem (zlen (vs q)) (w (pop_head_rem (w (head q + 1)) (zlen (vs q)))));
+    QOk ({| vs := vs q; head := head'; n := n' |}, (out, true)).
 
 Definition pop_last (q : queue) : res (queue * (T * bool)) :=
-  if poplast_empty (n q) then Ok (q, (zero, false))
+  if poplast_empty (n q) then QOk (q, (zero, false))
   else
     let len := zlen (vs q) in
-    let pos := poplast_pos (head q) (n q) in
-    let pos := if poplast_wrap_cond pos len then poplast_wrap_pos pos len else pos in
+    let pos := w (poplast_pos (head q) (n q)) in
+    let pos := if poplast_wrap_cond pos len then w (poplast_wrap_pos pos len) else pos in
     do out <- of_opt (idx (vs q) (poplast_idx pos)) PIndex;
-    let n' := poplast_n (n q) in
+    let n' := w (poplast_n (n q)) in
     let head' := if poplast_now_empty n' then poplast_head_reset else head q in
-    Ok ({| vs := vs q; head := head'; n := n' |}, (out, true)).
+    QOk ({| vs := vs q; head := head'; n := n' |}, (out, true)).
 
 (* Each(f): f is an arbitrary callback with its own state A; it is called on successive elements
    until it answers false or q.n calls were made. *)
@@ -173,14 +200,14 @@ Variable A : Type.
 Variable f : A -> T -> A * bool.
 Fixpoint each_loop (k : nat) (b : list T) (cur : Z) (a : A) : res A :=
   match k with
-  | O => Ok a
+  | O => QOk a
   | S k' =>
     do x <- of_opt (idx b (each_idx cur)) PIndex;
     let '(a', continue) := f a x in
-    if continue then
-      do cur' <- checked_rem (zlen b) (each_next cur (zlen b));
+    if each_stop continue then QOk a'
+    else
+      do cur' <- checked_rem (zlen b) (w (each_next_rem (w (cur + 1)) (zlen b)));
       each_loop k' b cur' a'
-    else Ok a'
   end.
 Definition each (q : queue) (a : A) : res A :=
   each_loop (Z.to_nat (each_count (n q))) (vs q) (each_start (head q)) a.
@@ -189,15 +216,15 @@ End Each.
 (* Slice(): nil when empty, else a fresh buffer filled by walking the ring *)
 Fixpoint slice_loop (k : nat) (i : Z) (b : list T) (cur : Z) (buf : list T) : res (list T) :=
   match k with
-  | O => Ok buf
+  | O => QOk buf
   | S k' =>
     do x <- of_opt (idx b (slice_src_idx cur)) PIndex;
     do buf' <- of_opt (upd buf (slice_dst_idx i) x) PIndex;
-    do cur' <- checked_rem (zlen b) (slice_next cur (zlen b));
+    do cur' <- checked_rem (zlen b) (w (slice_next_rem (w (cur + 1)) (zlen b)));
     slice_loop k' (i + 1) b cur' buf'
   end.
 Definition slice (q : queue) : res (list T) :=
-  if slice_empty (n q) then Ok []
+  if slice_empty (n q) then QOk []
   else
     do buf <- of_opt (make (slice_buflen (n q))) PMakeLen;
     slice_loop (Z.to_nat (slice_count (n q))) 0 (vs q) (slice_start (head q)) buf.
@@ -209,7 +236,7 @@ Definition hook_state (q : queue) : Z * Z * Z := (head q, n q, zlen (vs q)).
 Inductive init := IZero | INew | ISize (k : Z).
 
 Definition mk_init (i : init) : res queue :=
-  match i with IZero => Ok zero_queue | INew => Ok new | ISize k => new_size k end.
+  match i with IZero => QOk zero_queue | INew => QOk new | ISize k => new_size k end.
 
 (* Add/Push carry the oracle: cap(w) reported by the runtime if this call grows the buffer
    (ignored when it does not). *)
@@ -230,35 +257,36 @@ Definition collect (st : list T * nat) (x : T) : (list T * nat) * bool :=
 
 Definition step (q : queue) (o : op) : res (queue * out) :=
   match o with
-  | OAdd v c => do q' <- add q v c; Ok (q', RUnit)
-  | OPush v c => do q' <- push q v c; Ok (q', RUnit)
-  | OPop => do (q', (v, ok)) <- pop q; Ok (q', RVal v ok)
-  | OPopLast => do (q', (v, ok)) <- pop_last q; Ok (q', RVal v ok)
-  | OClear => Ok (clear q, RUnit)
-  | OLen => Ok (q, RInt (len q))
-  | OIsEmpty => Ok (q, RBool (is_empty q))
-  | OFront => do v <- front q; Ok (q, RElem v)
-  | OPeek k => do (v, ok) <- peek q k; Ok (q, RVal v ok)
-  | OEach m => do (acc, _) <- each _ collect q ([], m); Ok (q, RList acc)
-  | OSlice => do l <- slice q; Ok (q, RList l)
+  | OAdd v c => do q' <- add q v c; QOk (q', RUnit)
+  | OPush v c => do q' <- push q v c; QOk (q', RUnit)
+  | OPop => do (q', (v, ok)) <- pop q; QOk (q', RVal v ok)
+  | OPopLast => do (q', (v, ok)) <- pop_last q; QOk (q', RVal v ok)
+  | OClear => QOk (clear q, RUnit)
+  | OLen => QOk (q, RInt (len q))
+  | OIsEmpty => QOk (q, RBool (is_empty q))
+  | OFront => do v <- front q; QOk (q, RElem v)
+  | OPeek k => do (v, ok) <- peek q k; QOk (q, RVal v ok)
+  | OEach m => do (acc, _) <- each _ collect q ([], m); QOk (q, RList acc)
+  | OSlice => do l <- slice q; QOk (q, RList l)
   end.
 
-(* outputs of a history; stops at the first result that is not Ok *)
+(* outputs of a history; stops at the first result that is not QOk *)
 Fixpoint run (q : queue) (ops : list op) : list (res out) :=
   match ops with
   | [] => []
   | o :: rest =>
     match step q o with
-    | Ok (q', r) => Ok r :: run q' rest
-    | Panic k => [Panic k]
+    | QOk (q', r) => QOk r :: run q' rest
+    | QPanic k => [QPanic k]
     | BadOracle => [BadOracle]
+    | RotateFuel => [RotateFuel]
     end
   end.
 
 (* the state a history leads to *)
 Fixpoint exec (q : queue) (ops : list op) : res queue :=
   match ops with
-  | [] => Ok q
+  | [] => QOk q
   | o :: rest => do (q', _) <- step q o; exec q' rest
   end.
 
@@ -267,12 +295,18 @@ Definition exec_init (i : init) (ops : list op) : res queue :=
 
 Definition run_init (i : init) (ops : list op) : list (res out) :=
   match mk_init i with
-  | Ok q => run q ops
-  | Panic k => [Panic k]
+  | QOk q => run q ops
+  | QPanic k => [QPanic k]
   | BadOracle => [BadOracle]
+  | RotateFuel => [RotateFuel]
   end.
 
 End Queue.
+
+(* the model at Go's int width: what the correspondence replays against the real package *)
+Definition step64 (T : Type) (zero : T) := step wrap64 T zero.
+Definition run_init64 (T : Type) (zero : T) := run_init wrap64 T zero.
+
 
 Arguments OAdd {T} v c.
 Arguments OPush {T} v c.
